@@ -610,7 +610,10 @@ def _tlc(cfg, wd, tag):
     return res
 
 
-def _pool_map(fn, items):
+def _pool_map(fn, items, est_seconds):
+    """est_seconds: estimated total steady-state CPU seconds of the items.  Every worker process pays ~20 CPU-s of
+    start-up (jax/genjax import, first-use compilation of eager primitives; measured), a steady C17 case costs
+    ~8 ms per mode: use only as many workers as the work amortises."""
     # one XLA thread per worker process: the work is thousands of tiny eager ops
     os.environ.setdefault("XLA_FLAGS", "--xla_cpu_multi_thread_eigen=false intra_op_parallelism_threads=1")
     os.environ.setdefault("OMP_NUM_THREADS", "1")
@@ -619,9 +622,10 @@ def _pool_map(fn, items):
     for k, v in (("PYTHONMALLOC", "malloc"), ("MALLOC_TRIM_THRESHOLD_", "2000000000"),
                  ("MALLOC_MMAP_THRESHOLD_", "1000000000"), ("MALLOC_TOP_PAD_", "268435456")):
         os.environ.setdefault(k, v)
+    nproc = max(2, min(vlib.NCPU, int(est_seconds / 15) + 1))
     ctx = mp.get_context("spawn")
-    with ctx.Pool(vlib.NCPU) as pool:
-        return pool.map(fn, vlib.chunks(items, vlib.NCPU * 6))
+    with ctx.Pool(nproc) as pool:
+        return pool.map(fn, vlib.chunks(items, nproc * 8))
 
 
 def run_c17(rep, wd, tier, seed, replay):
@@ -655,6 +659,7 @@ def run_c17(rep, wd, tier, seed, replay):
         rep.exhaustive = True
         rep.extra["exhaustive_scope"] = f"all well-formed terms of CMNext up to depth 2 at Level {level}"
         rep.extra["roleA_states"] = a.distinct
+        rep.extra["wall_tlc_s"] = [round(a.wall, 1), round(s.wall, 1)]
         rep.extra["random_terms"] = s.distinct
         jit_every = 47 if tier == "quick" else 23
     if replay:
@@ -664,7 +669,10 @@ def run_c17(rep, wd, tier, seed, replay):
     else:
         # the number i selects the API spellings used for the term (rotating, shifted by the seed)
         items = [(i + seed % 1000, c, (i % jit_every == 0)) for i, c in enumerate(cases)]
-    results = _pool_map(_work_c17, items)
+    import time
+    t0 = time.time()
+    results = _pool_map(_work_c17, items, 0.016 * len(items) + 0.7 * sum(1 for it in items if it[2]))
+    rep.extra["wall_replay_s"] = round(time.time() - t0, 1)
     rep.evaluations = len(cases) * 2 + sum(1 for it in items if it[2])
     rep.traces = len(cases)
     for c in cases:
@@ -708,6 +716,7 @@ def run_c33(rep, wd, tier, seed, replay):
                       ["LawInv", "InvEmit"]), wd, "roleAB")
         rep.add_tlc(a)
         cases = sorted(a.payloads(), key=lambda c: (c["shape"], json.dumps(c["term"], sort_keys=True)))
+        rep.extra["wall_tlc_s"] = [round(a.wall, 1)]
     both = ("concrete", "array")
     if tier == "quick" and not replay:
         # invalid_subset re-traces the model on every call (0.1-0.4 s): one wrapper (chosen by TLC, rotating with
@@ -722,7 +731,12 @@ def run_c33(rep, wd, tier, seed, replay):
             rep.exhaustive = True
             rep.extra["exhaustive_scope"] = "all ordered candidate subsets with <= 3 entries, <=2 invalid, 9 shapes, 6 wrappers, 2 modes"
     cases = [it[1] for it in items]
-    results = _pool_map(_work_c33, items)
+    import time
+    t0 = time.time()
+    # measured: ~0.1-0.4 s per call alone, but concurrent workers slow each other down (system time): 6 workers
+    # were the optimum for the 700 quick calls
+    results = _pool_map(_work_c33, items, 0.12 * sum(len(it[2]) for it in items))
+    rep.extra["wall_replay_s"] = round(time.time() - t0, 1)
     rep.evaluations = sum(len(it[2]) for it in items)
     rep.traces = len(cases)
     for c in cases:
